@@ -49,7 +49,7 @@ type Case struct {
 
 func genPlan(t *rapid.T, pipelined bool) SimPlan {
 	var p SimPlan
-	o := gen.HSOptions{MaxProcs: 5, MaxPad: 2, Replicate: true}
+	o := gen.HSOptions{MaxProcs: 5, MaxPad: 2, Replicate: true, LFSR: true}
 	if pipelined {
 		o.ExtraALU = []string{"addp", "multp", "addp", "multp"}
 	}
@@ -303,7 +303,30 @@ func prop(c Case) pbt.Outcome {
 
 const rule = "1..3 dataflow-shaped machines (1..5 processors, i2rw/r2owa IO, generated stimuli and environment stalls), 1..3 concurrent copies of each sharing one Bondmachine (+ optionally concurrent SinglePipelineSimulate), seeded yields 0..3 before every worker step, GOMAXPROCS in {1,2,4,16}; oracle: per-tick digest of the full VM state equals the solo unperturbed run; non-trivial = some machine has >=2 processors and (yields enabled or >=2 concurrent simulations)"
 
+// genCold: the shape that meets process-wide lazily initialised state while it is still cold: two or three
+// machines with external inputs, each also run through SinglePipelineSimulate (which parses its stimuli
+// with the number library), all started together. The driver runs this entry as many short-lived processes.
+func genCold(t *rapid.T) Case {
+	c := genCase(false)(t)
+	c.Single = true
+	for len(c.Plans) < 2 {
+		c.Plans = append(c.Plans, genPlan(t, false))
+		c.Copies = append(c.Copies, 1)
+	}
+	for i := range c.Plans {
+		for try := 0; try < 6 && c.Plans[i].Spec.Inputs == 0; try++ {
+			c.Plans[i] = genPlan(t, false)
+		}
+	}
+	c.DataType = "unsigned"
+	if c.MaxProcs < 4 {
+		c.MaxProcs = 4
+	}
+	return c
+}
+
 var Props = []*pbt.Entry{
+	pbt.Def("cold_concurrent", rule+"; every case has >=2 machines with external inputs and runs SinglePipelineSimulate on each, concurrently, as the first thing a fresh process does (2 cases per process, many processes)", genCold, prop),
 	pbt.Def("sched_independent", rule, genCase(false), prop),
 	pbt.Def("sched_independent_pipelined", rule+"; ALU mix includes the pipelined opcodes addp/multp", genCase(true), prop),
 }
